@@ -93,6 +93,11 @@ package xml
 //@   ensures[F,C11,local] @val-quoted: l.attrVal != nil && len(l.attrVal) > 0 && (l.attrVal[0] == '"' || l.attrVal[0] == '\'') ==> forall(k, 1, len(l.attrVal) - 1, l.attrVal[k] != l.attrVal[0])
 //@   ensures[F,C11,local] @val-unquoted: l.attrVal != nil && len(l.attrVal) > 0 && l.attrVal[0] != '"' && l.attrVal[0] != '\'' ==> forall(k, 0, len(l.attrVal), !xmlNameEnd(l.attrVal[k], l.attrVal[k+1]))
 //@   loop 4 invariant[F] (delim == '"' || delim == '\'') && l.r.buf[attrPos + l.r.start] == delim && attrPos + l.r.start < l.r.pos && forall(k, attrPos + l.r.start + 1, l.r.pos, l.r.buf[k] != delim)
+// white space (all four XML kinds) may stand between the name, '=' and the value: an attribute is reported without a value
+// only if the first byte after that white space is not '='
+//@   ensures[F,C11,local] @valueless: l.attrVal == nil ==> exists(q, l.r.pos, len(l.r.buf), forall(k, l.r.pos, q, isXMLWS(l.r.buf[k])) && !isXMLWS(l.r.buf[q]) && l.r.buf[q] != '=')
+//@   ensures[F,C11,local] @value-after-ws: l.attrVal != nil ==> !isXMLWS(l.attrVal[0])
+//@   loop 2 invariant[F] @ws-run: forall(k, nameEnd + l.r.start, l.r.pos, isXMLWS(l.r.buf[k]))
 //@   loop 5 invariant[F] delim != '"' && delim != '\'' && l.r.buf[attrPos + l.r.start] == delim && forall(k, attrPos + l.r.start, l.r.pos, !xmlNameEnd(l.r.buf[k], l.r.buf[k+1]))
 //@   ensures[F,C11] @no-nul: forall(k, old(l.r.pos), l.r.pos, l.r.buf[k] != 0)
 //@   loop * candidate[F] forall(k, old(l.r.pos), l.r.pos, l.r.buf[k] != 0)
@@ -166,6 +171,9 @@ package xml
 //@   ensures[S]  len(result) >= len(b) + 2
 //@   ensures[F,C17] @quoted: result[0] == result[len(result)-1] && (result[0] == '"' || result[0] == '\'')
 //@   ensures[F,C17] @no-raw-quote: forall(k, 1, len(result)-1, result[k] != result[0])
+// the quote that needs fewer escapes is used ('"' on a tie), so the result is as short as a quoted value can be
+//@   ensures[F,C17] @quote-choice: result[0] == ite(old(cnt(b, '"', 0, len(b))) > old(cnt(b, '\'', 0, len(b))), '\'', '"')
+//@   ensures[F,C17] @length: len(result) == len(b) + 2 + 4 * min(old(cnt(b, '"', 0, len(b))), old(cnt(b, '\'', 0, len(b))))
 //@   loop 1 invariant -1 <= rangeindex && rangeindex < len(b) && singles == cnt(b, '\'', 0, rangeindex+1) && doubles == cnt(b, '"', 0, rangeindex+1)
 //@   loop 2 invariant -1 <= rangeindex && rangeindex < len(b) && (quote == '"' || quote == '\'') && len(t) == n && n == len(b) + 2 + 4*old(cnt(b, quote, 0, len(b)))
 //@   loop 2 invariant 0 <= start && start <= rangeindex+1 && j == 1 + start + 4*old(cnt(b, quote, 0, rangeindex+1)) && forall(k, start, rangeindex+1, b[k] != quote)
